@@ -51,6 +51,17 @@ def gen_cases(tier, seed):
                 p = S.draw_params(rng, fam, S.RANGE)
             other = S.draw_params(rng, fam, S.RANGE)
             cases.append({"fam": fam, "params": p, "other": other, "sub": int(rng.integers(1 << 30))})
+    # locations far from the origin (a mean direction recorded on [0, 2 pi), an offset of several scales)
+    lrng = np.random.default_rng([seed, 5, 8])
+    for fam, loc in (("vonmises", "mu"), ("normal", "mu"), ("gumbel_r", "loc"), ("weibull", "gamma")):
+        if fam not in S.ALL_FAMS:
+            continue
+        for v in (3.5, 4.0, -4.5, 6.0, 9.0, -12.0):
+            if fam == "weibull" and v < 0:
+                continue
+            p = S.draw_params(lrng, fam, S.RANGE)
+            p[loc] = float(v)
+            cases.append({"fam": fam, "params": p, "other": S.draw_params(lrng, fam, S.RANGE), "sub": int(lrng.integers(1 << 30))})
     cases.append({"repo_tests": ["tests/test_distributions.py", "tests/comparison-to-virocon-v1/test_distributions.py"], "cost": 20})
     return cases
 
